@@ -32,3 +32,8 @@ package http
 //@ func httpForCode
 //@   returns (r)
 //@   ensures[C16.c] (c == NotFound ==> r == 404) && (r == 404 ==> c == NotFound) && (r == 409 || r == 404 || r == 400 || r == 500)
+
+// The read API serves the witness it was constructed with.
+//@ func NewServer
+//@   returns (s)
+//@   ensures[C16.new] s != nil && s.w == witness
